@@ -24,6 +24,7 @@ type c02case struct {
 	Root     bool              `json:"root"`
 	RootTags string            `json:"root_tags,omitempty"`
 	ErrClass string            `json:"err_class"` // "" = valid
+	Late     string            `json:"late,omitempty"`
 	Config   map[string]string `json:"config"`
 }
 
@@ -141,7 +142,12 @@ func c02gen(r *rand.Rand, universe []string) *c02case {
 	}
 	c.Root = r.IntN(2) == 0
 	// error injection
-	if r.IntN(3) == 0 {
+	if r.IntN(14) == 0 {
+		// a configuration that is fine as far as tags go but fails late (after tags were bound): whatever Refresh answers,
+		// after Destroy the next configuration must be routed as if this one had never been tried
+		c.ErrClass = "late-failure"
+		c.Late = []string{"bufferCap=12XB", "enableCaller=perhaps", "fastCaller=maybe"}[r.IntN(3)]
+	} else if r.IntN(3) == 0 {
 		switch r.IntN(4) {
 		case 0:
 			if nl >= 2 {
@@ -192,6 +198,14 @@ func c02gen(r *rand.Rand, universe []string) *c02case {
 			lg.Raw = c02renderList(r, lg.Entries)
 		}
 		cfg["logger."+lg.Name+"."+tagsKey()] = lg.Raw
+	}
+	switch c.Late {
+	case "bufferCap=12XB":
+		cfg["bufferCap"] = "12XB"
+	case "enableCaller=perhaps":
+		cfg["enableCaller"] = "perhaps"
+	case "fastCaller=maybe":
+		cfg["fastCaller"] = "maybe"
 	}
 	if c.Root {
 		cfg["appender.sroot.type"] = "VRec"
@@ -299,6 +313,12 @@ func c02Worker(w *W) {
 				log.Destroy()
 				okAll = false
 				break
+			}
+			if c.ErrClass == "late-failure" {
+				// judged by the cases that follow
+				log.Destroy()
+				w.Count("late_failing_refreshes", 1)
+				continue
 			}
 			if c.ErrClass != "" {
 				if err == nil {
